@@ -47,7 +47,7 @@ C02_RaiseOnlyWhenStalled ==
 \* (`touched` is still set after a cycle only when the cycle itself was disturbed - somebody wrote to the fan in the middle of
 \*  it, or the device refused the write; the cycle after that one is held to the formula)
 C05_Undone ==
-  IsCycleOk /\ ~touched => /\ (cfg.hasMode => mode = Manual)
+  IsCycleOk /\ ~touched => /\ (cfg.hasMode /\ ~cfg.modeStuck => mode = Manual)   \* (a driver that ignores the mode write: the PWM value is still restored)
                /\ pwm \in WS(last)
                /\ last = out.req
 \* a changed PWM value is counted, and nothing is counted while nobody else touches the fan
